@@ -183,6 +183,70 @@ theorem inv_joined_readBack (hs hs' : Headers) (hc : CanonHeaders hs) (hp : hs'.
   rw [inv_joined_perm hs' _ hp (by rw [inv_keys_map_normField hs hfix]; exact inv_canon_nodup hs hc)]
   exact inv_joined_map_normField k hs hfix
 
+/-! The verifier only looks up the five token names Cache-Control, Expires, Content-Type, Digest and MI-Draft2.
+    For token names `lowerIfInvalid` (and `ascii`) are not needed: a stored name that is not a token cannot
+    match a token name, before or after the round trip. -/
+
+/-- what (A) needs of the response header map: the first and the last field of `CanonHeaders` -/
+structure CanonKeys (hs : Headers) : Prop where
+  canon : ∀ kv ∈ hs, canonicalKey kv.1 = kv.1
+  distinct : (hs.map fun kv => lowerAscii kv.1).Nodup
+
+theorem CanonHeaders.keys {hs : Headers} (h : CanonHeaders hs) : CanonKeys hs := ⟨h.canon, h.distinct⟩
+
+theorem inv_key_match (n ck : Bytes) (hc : canonicalKey n = n) (hk : ck.all validHeaderFieldByte = true) :
+    (canonicalKey (lowerAscii n) == ck) = (n == ck) := by
+  by_cases hv : n.all validHeaderFieldByte = true
+  · rw [inv_canonicalKey_lowerAscii n hv, hc]
+  · have h1 : (n == ck) = false := by
+      cases hh : n == ck with
+      | false => rfl
+      | true => rw [eq_of_beq hh] at hv; exact absurd hk hv
+    have hv' : ¬ (lowerAscii n).all validHeaderFieldByte = true := by rw [inv_all_valid_lowerAscii]; exact hv
+    have h2 : (canonicalKey (lowerAscii n) == ck) = false := by
+      unfold canonicalKey
+      rw [if_neg hv']
+      cases hh : lowerAscii n == ck with
+      | false => rfl
+      | true => rw [eq_of_beq hh] at hv'; exact absurd hk hv'
+    rw [h1, h2]
+
+theorem inv_joined_map_normField_token (k : Bytes) (hk : (canonicalKey k).all validHeaderFieldByte = true) :
+    ∀ (hs : Headers), (∀ kv ∈ hs, canonicalKey kv.1 = kv.1) → joined (hs.map normField) k = joined hs k := by
+  intro hs
+  induction hs with
+  | nil => intro _; rfl
+  | cons kv rest ih =>
+    intro h
+    rw [List.map_cons, inv_joined_cons, inv_joined_cons, ih (fun x hx => h x (List.mem_cons_of_mem _ hx))]
+    have h1 : ((normField kv).1 == canonicalKey k) = (kv.1 == canonicalKey k) :=
+      inv_key_match kv.1 _ (h kv (by simp)) hk
+    have h2 : joinComma (normField kv).2 = joinComma kv.2 := rfl
+    rw [h1, h2]
+
+theorem inv_keys_nodup_normField (hs : Headers) (hd : (hs.map fun kv => lowerAscii kv.1).Nodup) :
+    ((hs.map normField).map Prod.fst).Nodup := by
+  have : ((hs.map normField).map Prod.fst).map lowerAscii = hs.map fun kv => lowerAscii kv.1 := by
+    rw [List.map_map, List.map_map]
+    apply List.map_congr_left
+    intro kv _
+    simp only [Function.comp, normField]
+    rw [lowerAscii_canonicalKey, lowerAscii_idem]
+  rw [← this] at hd
+  exact nodup_of_map _ _ hd
+
+/-- (3) for token names, from `CanonKeys` alone -/
+theorem inv_joined_readBack_token (hs hs' : Headers) (hc : CanonKeys hs) (hp : hs'.Perm (hs.map normField)) (k : Bytes)
+    (hk : (canonicalKey k).all validHeaderFieldByte = true) : joined hs' k = joined hs k := by
+  rw [inv_joined_perm hs' _ hp (inv_keys_nodup_normField hs hc.distinct)]
+  exact inv_joined_map_normField_token k hk hs hc.canon
+
+theorem inv_token_hCacheControl : (canonicalKey hCacheControl).all validHeaderFieldByte = true := by decide +kernel
+theorem inv_token_hExpires : (canonicalKey hExpires).all validHeaderFieldByte = true := by decide +kernel
+theorem inv_token_hContentType : (canonicalKey hContentType).all validHeaderFieldByte = true := by decide +kernel
+theorem inv_token_digestName (enc : Mice.Enc) : (canonicalKey enc.digestHeaderName).all validHeaderFieldByte = true := by
+  cases enc <;> decide +kernel
+
 /-! ### the signed header block -/
 
 /-- (2) `encodeHeaders` of the re-read field list: same lower-cased names, same joined values -/
@@ -262,15 +326,16 @@ theorem inv_headersOk (e e' : Exchange) (hrb : ReadBack e e')
   · rw [if_neg hv] at hr
     exact inv_any_readBack isStatefulRequestHeader inv_isStateful_normKey _ _ hr
 
-theorem inv_isCacheable (env : Env) (e e' : Exchange) (hc : CanonHeaders e.respHeaders) (hrb : ReadBack e e') :
+theorem inv_isCacheable (env : Env) (e e' : Exchange) (hc : CanonKeys e.respHeaders) (hrb : ReadBack e e') :
     isCacheable env e' = isCacheable env e := by
   unfold isCacheable
-  rw [hrb.status, inv_joined_readBack _ _ hc hrb.resp, inv_joined_readBack _ _ hc hrb.resp]
+  rw [hrb.status, inv_joined_readBack_token _ _ hc hrb.resp _ inv_token_hCacheControl,
+    inv_joined_readBack_token _ _ hc hrb.resp _ inv_token_hExpires]
 
-theorem inv_verifyPayload (env : Env) (e e' : Exchange) (hc : CanonHeaders e.respHeaders) (hrb : ReadBack e e')
+theorem inv_verifyPayload (env : Env) (e e' : Exchange) (hc : CanonKeys e.respHeaders) (hrb : ReadBack e e')
     (s : Signature) : verifyPayload env e' s = verifyPayload env e s := by
   unfold verifyPayload
-  simp only [hrb.version, hrb.payload, inv_joined_readBack _ _ hc hrb.resp]
+  simp only [hrb.version, hrb.payload, inv_joined_readBack_token _ _ hc hrb.resp _ (inv_token_digestName _)]
 
 /-- everything `Acceptable` reads from the exchange -/
 structure SameView (env : Env) (e e' : Exchange) : Prop where
@@ -320,15 +385,24 @@ theorem inv_verify_of_sameView (env : Env) (e e' : Exchange) (t : GoTime.T) (hv 
   unfold verify
   rw [hsig, hone]
 
-theorem inv_sameView_readBack (env : Env) (e e' : Exchange) (hc1 : CanonHeaders e.respHeaders)
+theorem inv_sameView_readBack (env : Env) (e e' : Exchange) (hc1 : CanonKeys e.respHeaders)
     (hb3 : e.version = .b3 → e.reqHeaders.any (fun kv => isStatefulRequestHeader kv.1) = false)
     (hrb : ReadBack e e') : SameView env e e' := by
   refine ⟨hrb.version, hrb.uri, ?_, inv_signedMessage e e' hrb, inv_verifyPayload env e e' hc1 hrb,
-    inv_joined_readBack _ _ hc1 hrb.resp _, inv_isCacheable env e e' hc1 hrb, inv_headersOk e e' hrb hb3⟩
+    inv_joined_readBack_token _ _ hc1 hrb.resp _ inv_token_hContentType, inv_isCacheable env e e' hc1 hrb,
+    inv_headersOk e e' hrb hb3⟩
   intro hne
   have hm := hrb.method
   rw [if_neg hne] at hm
   exact hm
+
+/-- (A), strongest form: of the response header map only `CanonKeys` is used (stored names canonical and
+    distinct after case folding — true of every map built with `Header.Add/Set/Del`), nothing of the request map -/
+theorem verify_readBack_canonKeys (env : Env) (e e' : Exchange) (t : GoTime.T)
+    (hc1 : CanonKeys e.respHeaders)
+    (hb3 : e.version = .b3 → e.reqHeaders.any (fun kv => isStatefulRequestHeader kv.1) = false)
+    (hrb : ReadBack e e') : verify env e' t = verify env e t :=
+  inv_verify_of_sameView env e e' t (inv_sameView_readBack env e e' hc1 hb3 hrb) hrb.sig
 
 /-- **(A)** `Exchange.Verify` gives the same verdict (same decoded payload, or the same refusal) on an exchange
     and on what `ReadExchange` returns for the file `Exchange.Write` produced from it.
@@ -340,7 +414,7 @@ theorem verify_readBack (env : Env) (e e' : Exchange) (t : GoTime.T)
     (hc1 : CanonHeaders e.respHeaders)
     (hb3 : e.version = .b3 → e.reqHeaders.any (fun kv => isStatefulRequestHeader kv.1) = false)
     (hrb : ReadBack e e') : verify env e' t = verify env e t :=
-  inv_verify_of_sameView env e e' t (inv_sameView_readBack env e e' hc1 hb3 hrb) hrb.sig
+  verify_readBack_canonKeys env e e' t hc1.keys hb3 hrb
 
 /-- (A) with the hypotheses exactly as first stated (request map canonical too; b3: no request headers, GET) -/
 theorem verify_readBack_asStated (env : Env) (e e' : Exchange) (t : GoTime.T)
@@ -351,11 +425,11 @@ theorem verify_readBack_asStated (env : Env) (e e' : Exchange) (t : GoTime.T)
 
 /-- (A) composed with `read_write`: verifying the file's exchange = verifying the in-memory exchange -/
 theorem verify_read_write (env : Env) (e : Exchange) (out : Bytes) (t : GoTime.T) (hd : Dom env.url e)
-    (hw : write e = .ok out) (hc1 : CanonHeaders e.respHeaders)
+    (hw : write e = .ok out) (hc1 : CanonKeys e.respHeaders)
     (hb3 : e.version = .b3 → e.reqHeaders.any (fun kv => isStatefulRequestHeader kv.1) = false) :
     ∃ e', read env.url out = .ok e' ∧ verify env e' t = verify env e t := by
   obtain ⟨e', hr, h1, h2, h3, h4, h5, h6, h7, h8⟩ := read_write env.url e out hd hw
-  exact ⟨e', hr, verify_readBack env e e' t hc1 hb3 ⟨h1, h2, h3, h4, h5, h6, h7, h8⟩⟩
+  exact ⟨e', hr, verify_readBack_canonKeys env e e' t hc1 hb3 ⟨h1, h2, h3, h4, h5, h6, h7, h8⟩⟩
 
 
 /-! ## (B) an honestly signed exchange verifies -/
@@ -559,8 +633,8 @@ theorem honest_digest_shape (H : Bytes → Bytes) (enc : Mice.Enc) (p : Bytes) (
     ∃ b, (Mice.encode H enc p rs).2 = enc.name ++ 61 :: b := by
   unfold Mice.encode
   by_cases h : enc = .draft03 ∧ p.length = 0
-  · rw [if_pos h]; exact ⟨_, by simp only [Mice.formatDigestHeader, List.append_assoc, List.singleton_append]⟩
-  · rw [if_neg h]; exact ⟨_, by simp only [Mice.formatDigestHeader, List.append_assoc, List.singleton_append]⟩
+  · rw [if_pos h]; exact ⟨_, by simp only [Mice.formatDigestHeader, List.append_assoc, List.singleton_append]; rfl⟩
+  · rw [if_neg h]; exact ⟨_, by simp only [Mice.formatDigestHeader, List.append_assoc, List.singleton_append]; rfl⟩
 
 theorem honest_comma_digest_unparsable (enc : Mice.Enc) (b : Bytes) :
     Mice.parseDigestHeader enc (44 :: (enc.name ++ 61 :: b)) = none := by
@@ -587,8 +661,8 @@ theorem honest_refused_if_empty_digest_value (env : Env) (e0 e1 e2 : Exchange) (
     (hval : values e0.respHeaders e0.version.mice.digestHeaderName = [[]])
     (hmi : miEncodePayload env.H e0 rs = some e1)
     (hsign : addSignatureHeader e1 sig validityUrl certUrl certSha date expires = some e2) :
-    get e0.respHeaders e0.version.mice.digestHeaderName = [] ∧ verify env e2 t = none := by
-  refine ⟨by unfold get; rw [hval]; rfl, ?_⟩
+    Http.get e0.respHeaders e0.version.mice.digestHeaderName = [] ∧ verify env e2 t = none := by
+  refine ⟨by unfold Http.get; rw [hval]; rfl, ?_⟩
   have he1 := honest_miEncodePayload_eq env.H e0 e1 rs hmi
   obtain ⟨hd, _, he2⟩ := honest_addSignatureHeader_eq e1 e2 sig validityUrl certUrl certSha date expires hsign
   have hv : e2.version = e0.version := by rw [he2, he1]
